@@ -220,8 +220,8 @@ theorem PresS.get_modNode {β} (n : Nat) (F : State → Node → Node) (k : Stat
   exact h1.trans ((hk s ()).h _ _ _ h)
 
 macro_rules
-  | `(tactic| qleaf) =>
-    `(tactic| (apply PresS.get_modNode
+  | `(tactic| qspecial) =>
+    `(tactic| ((with_reducible apply PresS.get_modNode)
                · intro _ _; first | exact Or.inl rfl | exact Or.inr rfl))
 
 theorem PresS.invalidateNode (fuel n) : Pres Stamp (invalidateNode fuel n) := by
@@ -287,10 +287,22 @@ stamp_leaf PresS.isConstant
 theorem PresS.resolveOpnd {R : State → State → Prop} [PreOrd R] (l o) : Pres R (resolveOpnd l o) := by
   unfold Engine.resolveOpnd; qpres
 stamp_leaf PresS.resolveOpnd
+set_option maxHeartbeats 1000000 in
 theorem PresS.elabInstr (loc v i) : Pres Stamp (elabInstr loc v i) := by
-  unfold Engine.elabInstr; qpres
+  cases i with
+  | mapOp op => cases op <;> (simp only [Engine.elabInstr]; qpres)
+  | _ => simp only [Engine.elabInstr]; qpres
 stamp_leaf PresS.elabInstr
-theorem PresS.elabTemplate (t v) : Pres Stamp (elabTemplate t v) := by
+theorem PresS.elabTemplateBase (t v init) : Pres Stamp (elabTemplateBase t v init) := by
+  unfold Engine.elabTemplateBase; qpres
+stamp_leaf PresS.elabTemplateBase
+theorem PresS.memoCall (env m key) : Pres Stamp (memoCall env m key) := by
+  unfold Engine.memoCall; qpres
+stamp_leaf PresS.memoCall
+theorem PresS.elabInstrM (env loc v i) : Pres Stamp (elabInstrM env loc v i) := by
+  unfold Engine.elabInstrM; qpres
+stamp_leaf PresS.elabInstrM
+theorem PresS.elabTemplate (env t v) : Pres Stamp (elabTemplate env t v) := by
   unfold Engine.elabTemplate; qpres
 stamp_leaf PresS.elabTemplate
 theorem PresS.didSetVarWhileNotStabilising (v) : Pres Stamp (didSetVarWhileNotStabilising v) := by
@@ -318,6 +330,19 @@ theorem PresS.runEffects (env fuel effs arg) : Pres Stamp (runEffects env fuel e
 stamp_leaf PresS.runEffects
 
 
+/-! ### per-key operators, operator closures -/
+theorem PresS.expertValue (env e d sl) : Pres Stamp (expertValue env e d sl) := by
+  unfold Engine.expertValue; qpres
+stamp_leaf PresS.expertValue
+theorem PresS.withOldEvents (env g n σ old x new did) :
+    Pres Stamp (withOldEvents env g n σ old x new did) := by
+  unfold Engine.withOldEvents; qpres
+stamp_leaf PresS.withOldEvents
+set_option maxHeartbeats 1000000 in
+theorem PresS.perKeyDriver (env fuel op m) : Pres Stamp (perKeyDriver env fuel op m) := by
+  unfold Engine.perKeyDriver; qpres
+stamp_leaf PresS.perKeyDriver
+
 /-! ### notifications, `maybeChangeValue`, `recomputeOne` -/
 theorem PresS.childChanged (env fuel p c ci o) : Pres Stamp (childChanged env fuel p c ci o) := by
   induction fuel generalizing p c ci o with
@@ -325,7 +350,28 @@ theorem PresS.childChanged (env fuel p c ci o) : Pres Stamp (childChanged env fu
   | succ fuel ih => unfold Engine.childChanged; qpres; all_goals exact ih _ _ _ _
 stamp_leaf PresS.childChanged
 theorem PresS.parentIterCanRecomputeNow (p c) : Pres Stamp (parentIterCanRecomputeNow p c) := by
-  unfold Engine.parentIterCanRecomputeNow; qpres
+  constructor
+  intro s r s' h
+  rw [picrn_run] at h
+  have hw : Stamp s (withMinHeight s) := Stamp.of_eq rfl rfl rfl
+  split at h
+  · cases h; exact Stamp.refl _
+  split at h
+  · cases h; exact Stamp.refl _
+  split at h
+  · cases h; exact hw
+  split at h
+  · cases h; exact hw
+  split at h
+  · cases h; exact hw
+  split at h
+  · cases h; exact hw
+  split at h
+  · cases h; exact hw
+  rcases hi : (Engine.rchInsert p).run.run (withMinHeight s) with ⟨x, s2⟩
+  rw [hi] at h
+  have h2 := (PresS.rchInsert p).h _ _ _ hi
+  cases x <;> (cases h; exact hw.trans h2)
 stamp_leaf PresS.parentIterCanRecomputeNow
 theorem PresS.maybeChangeValueManual (env fuel n o d b) :
     Pres Stamp (maybeChangeValueManual env fuel n o d b) := by
